@@ -249,6 +249,11 @@ def r4_tensor_json(ctx):
     rs = [s for s in statements(fp.node) if isinstance(s, ast.Raise)]
     ok = any(raised_class_name(s) == "LeaspyIndividualParamsInputError" for s in rs) and any("len(indices)" in U(cfg.stmt[h].test) for r in cfg.nodes(lambda s: isinstance(s, ast.Raise)) for h, _ in cfg.if_guards(r))
     ctx.check(ok, "C16.R4", fp, rs[0] if rs else fp.node, "length mismatch refused", "from_pytorch no longer refuses tensors whose length differs from the identifiers")
+    from ._shared import refusal_side_conditions
+    for r in cfg.nodes(lambda s: isinstance(s, ast.Raise)):
+        if any("len(indices)" in U(cfg.stmt[h].test) and lab for h, lab in cfg.if_guards(r)):
+            for st_, g_, kind in refusal_side_conditions(cfg, r, lambda g: "len(indices)" in g, U):
+                ctx.violation("C16.R4", fp, st_, f"the refusal of a length mismatch {kind} `{g_[:80]}`: some mismatching tensors are accepted", construct="length check unconditional")
     sj = ctx.ix.func(MOD, f"{CLS}._save_json", "C16.R4")
     lj = ctx.ix.func(MOD, f"{CLS}._load_json", "C16.R4")
     wkeys = set()
